@@ -14,8 +14,8 @@ open Rx Py
 
 structure Rec where
   spans : Str → M Str
-  /-- `document.render(source, nesting)` -/
-  document : Nat → Str → M Str
+  /-- `document.render(source, nesting, level)` -/
+  document : Depth → Str → M Str
 
 /-- Python's `a & m` for an `int` `a` of either sign and a non-negative mask. -/
 def pyAnd (a : Int) (m : Nat) : Nat :=
@@ -94,7 +94,8 @@ def paramRepl (rec : Rec) (paramsList : List Str) (mr : Match) : M Str := do
 def macroRepl (rec : Rec) (env : Env) (text : Str) (silent simple : Bool) (mt : Match) : M Str := do
   let whole := mt.whole
   if startsWith whole "\\".toList then
-    return whole.drop 1
+    -- the silent pass is that of a line macro, whose result is read and rendered again: the escape is left for then
+    return if silent then whole else whole.drop 1
   let params ← mt.str 2
   if startsWith params "?".toList then
     if !silent then
@@ -151,12 +152,17 @@ def replaceInline (rec : Rec) (env : Env) (text : Str) (expand : Expand) : M Str
 
 /-- What `utils.replaceMatch` does with the text of one group: `$n` (spans = false) adds specials to a copy of the
     expansion options, `$$n` adds spans; the text is expanded and, unless it was span-rendered, its double quotes
-    are escaped (it may stand inside a quoted attribute value). -/
-def replaceGroupText (rec : Rec) (env : Env) (g : Str) (spans : Bool) (expand : Expand) : M Str := do
+    are escaped if it stands inside a quoted attribute value of the template (`inAttr`). -/
+def replaceGroupText (rec : Rec) (env : Env) (g : Str) (spans : Bool) (expand : Expand) (inAttr : Bool := true) :
+    M Str := do
   let groupExpand : Expand :=
     if spans then { expand with spans := some true } else { expand with specials := some true }
   let result ← replaceInline rec env g groupExpand
-  return if groupExpand.spans != some true then replaceAll result "\"".toList "&quot;".toList else result
+  return if groupExpand.spans != some true && inAttr then replaceAll result "\"".toList "&quot;".toList else result
+
+/-- `replacement.count('"', 0, m.start()) % 2 == 1`: the `$n` stands inside a double-quoted attribute value of the
+    replacement template -/
+def insideQuotes (m : Match) : Bool := ((m.inp.toList.take m.start).count '"') % 2 == 1
 
 /-- The `repl(m)` closure of `utils.replaceMatch`: every `$n` / `$$n` gets its own copy of the
     expansion options. -/
@@ -170,7 +176,7 @@ def replaceMatchGroup (rec : Rec) (env : Env) (mt : Match) (expand : Expand) (m 
     errorCallback ("undefined replacement group: ".toList ++ m.whole)
     return []
   let g ← mt.orEmpty i
-  replaceGroupText rec env g (dollars == "$$".toList) expand
+  replaceGroupText rec env g (dollars == "$$".toList) expand (insideQuotes m)
 
 /-- `utils.replaceMatch(match, replacement, expand)` -/
 def replaceMatch (rec : Rec) (env : Env) (mt : Match) (replacement : Str) (expand : Expand := {}) : M Str :=
